@@ -9,6 +9,7 @@ def run(cmd, cwd=None, timeout=600):
     return p.returncode, (p.stdout + p.stderr)
 NEEDS = json.load(open("/verif/tools/seeded_needs.json")) if os.path.exists("/verif/tools/seeded_needs.json") else {}
 SRC = os.environ.get("SEED_SRC", "/tmp/wt")
+RACE = "-race" if os.environ.get("SEED_RACE") else ""  # demos that need the race detector (C19)
 IDMAP = dict(zip("ab", os.environ.get("SEED_LETTERS", "ab")))
 def main():
     dirs = sys.argv[1:] or ["c%02d" % i for i in range(1, 20)]
@@ -31,7 +32,7 @@ def main():
                 meta = {"id": sid, "breaks_property": prop, "source": "independent sub-agent given only the property text and a scratch worktree of the pinned commit", "verified_on_repo_head": head, "rebased_by_hand": rebased}
                 run("git checkout -- . && git clean -fdq", cwd=WT)
                 shutil.copy(demo, WT + "/seeded_demo_test.go")
-                rc, out = run("go test -vet=off -count=1 -run TestSeededDemo .", cwd=WT)
+                rc, out = run("go test %s -vet=off -count=1 -run TestSeededDemo ." % RACE, cwd=WT, timeout=900)
                 meta["demo_passes_without_change"] = rc == 0
                 rc1, o1 = run("git apply --check %s" % src, cwd=WT)
                 if rc1 == 0:
@@ -49,7 +50,7 @@ def main():
                 meta["compiles"] = rc == 0
                 rc, out = run("go test -vet=off -count=1 -skip TestSeededDemo ./...", cwd=WT)
                 meta["existing_suite_passes_with_change"] = rc == 0
-                rc, out = run("go test -vet=off -count=1 -run TestSeededDemo .", cwd=WT, timeout=900)
+                rc, out = run("go test %s -vet=off -count=1 -run TestSeededDemo ." % RACE, cwd=WT, timeout=900)
                 meta["demo_fails_with_change"] = rc != 0
                 meta["demo_failure_excerpt"] = "\n".join([l for l in out.splitlines() if l.strip()][:8])
                 patch = run("git diff -- '*.go' ':!*_test.go'", cwd=WT)[1]
@@ -57,7 +58,7 @@ def main():
                 nd = NEEDS.get(sid, {})
                 meta["change"] = nd.get("change", "")
                 meta["needs_to_manifest"] = nd.get("needs", "")
-                meta["what_i_ran"] = ["scratch worktree of /repo HEAD: go test -run TestSeededDemo (clean)", "git apply; go build; go test -skip TestSeededDemo ./... (existing suite); go test -run TestSeededDemo (must fail)"]
+                meta["what_i_ran"] = ["scratch worktree of /repo HEAD: go test -run TestSeededDemo (clean)", "git apply; go build; go test -skip TestSeededDemo ./... (existing suite); go test %s -run TestSeededDemo (must fail)" % RACE]
                 write(sid, meta, patch, demo)
                 ok = meta["demo_passes_without_change"] and meta["compiles"] and meta["existing_suite_passes_with_change"] and meta["demo_fails_with_change"]
                 print(sid, "OK" if ok else "REJECTED", {k: meta[k] for k in ("demo_passes_without_change", "compiles", "existing_suite_passes_with_change", "demo_fails_with_change")})
